@@ -2944,7 +2944,7 @@ class Face3D(Base2DIn3D):
         new_face._is_convex = self._is_convex
         new_face._is_self_intersecting = self._is_self_intersecting
         if self._perimeter is not None:
-            new_face._perimeter = self._perimeter * factor
+            new_face._perimeter = self._perimeter * abs(factor)
         if self._area is not None:
             new_face._area = self._area * factor ** 2
 
